@@ -8,12 +8,18 @@ For every (peptide, header entry) pair of every output:
     translation from a permitted start in which the peptide is a digestion product
     (witness_ok_iff proves the decider equivalent to that statement)
   * every entry string occurs at most once in the whole FASTA (entries_unique)
+Entries that also name generated identifiers (alt-translation flags) are checked POSITION-EXACTLY with
+witness_ok_pos (Model/SpecAltPos.v, witness_ok_pos_iff): SECT-n must name an annotated Sec codon of the backbone
+(n = 1-based gene coordinate of its first base) and the peptide must be a product cut in front of the U read from
+exactly THAT codon; W2F-i (1-based residue index in the printed peptide) must name exactly the residues that were W
+and are F.  A generated identifier that is wrong is a VIOLATION unless a listed finding about the named RECORDS
+explains the entry (the repair search only removes / adds records, never touches the generated identifiers).
 Known findings are classified by signature (see classify_entry): D12 / C03-stoploss-header (the header
 omits an upstream frameshift / the stop-altering record the peptide depends on), D14 (exception ON:
 witness under the relaxed exception semantics).  Anything else is a VIOLATION.
 """
-import json, os, glob, collections, itertools
-from harness.lib import oracle as O, cvgen as CG, cvcheck as CK, cvsig as SG
+import json, os, sys, glob, collections, itertools
+from harness.lib import oracle as O, cvgen as CG, cvcheck as CK, cvsig as SG, cvgen_alt as CA, gen_reference as G
 
 PROPERTY = 'C03'
 ROOT = os.path.dirname(os.path.dirname(os.path.dirname(os.path.abspath(__file__))))
@@ -24,8 +30,8 @@ F_BUBBLE = 'C03-bubble-omitted-id'
 
 def sizes(ctx):
     if ctx.quick:
-        return dict(core=700, excon=240, flags=120)
-    return dict(core=18000, excon=5000, flags=4000)
+        return dict(core=700, excon=240, flags=120, altpos=130)
+    return dict(core=18000, excon=5000, flags=4000, altpos=4000)
 
 def gen_cases(ctx):
     rng = ctx.rng
@@ -53,7 +59,39 @@ def gen_cases(ctx):
             if not c['runs'][0]['sect']:
                 c['runs'][0].update(sect=True, extra=['--selenocysteine-termination'])
         cases.append(c)
+    for i in range(n.get('altpos', 0)):
+        # designed geometry for position-exact SECT-n / W2F-i: 2-3 W in one peptide, records next to W, records in
+        # the codon directly before / after a Sec codon together with a second record upstream, two Sec codons
+        c = CA.gen_designed_case(rng)
+        run = CA.gen_designed_run(rng, c)
+        if run['w2f'] and CK.max_w_run(c, run, run['max_len']) > 6:
+            run.update(w2f=False, sect=True, extra=['--selenocysteine-termination'])
+        c['runs'] = [run]; c['stream'] = 'altpos'
+        cases.append(c)
     return cases
+
+def sect_positions(case, tx_id):
+    """{n: transcript position of the Sec codon} for the ids SECT-n the backbone can carry: n = 1-based GENE
+    coordinate of the first base of an annotated Sec codon (ground truth of the generator, not the repo's code)"""
+    g, t = CK._tx_of(case, tx_id)
+    return {G.g2gene(g, G.tx2g(g, t, p)) + 1: p for p in (t.get('sec') or [])} if t['cds'] else {}
+
+def alt_positions(case, tx_id, seq, alts):
+    """generated identifiers of an entry -> (sect transcript positions, 0-based W2F residue indices ascending), or
+    a string naming what is wrong with them before any semantics is consulted"""
+    secmap = sect_positions(case, tx_id)
+    sp, wp = [], []
+    for a in alts:
+        kind, n = a.split('-'); n = int(n)
+        if kind == 'SECT':
+            if n not in secmap:
+                return 'sect-id-names-no-annotated-sec-codon'
+            sp.append(secmap[n])
+        else:
+            if not (1 <= n <= len(seq)):
+                return 'w2f-id-outside-peptide'
+            wp.append(n - 1)
+    return sp, sorted(wp)
 
 def corpus_cases():
     out = []
@@ -84,6 +122,47 @@ def complete_header(x, recs, p, ids_idx, cds_end, relaxed=False):
             if ok:
                 return list(cb)
     return None
+
+GAPS = collections.Counter()
+# C03-superfluous-id is the over-reporting of a SECOND ALLELE of a bubble position the peptide does carry: the
+# superfluous record overlaps or abuts (0 nt) a named record that stays in the witness (measured on the unchanged
+# tree, 10 000 core runs = 176 659 entries: 114 of 116 hits); twice the record sat in the codon directly in front
+# of the peptide (2 nt before its first codon).  A superfluous record anywhere else (a frameshift leaked from another
+# branch: seeded C03-3) is NOT this finding.  SUPERFLUOUS_NAMED_BOUND: nt to the nearest kept named record;
+# SUPERFLUOUS_MAX_GAP: nt outside the peptide (one codon).
+SUPERFLUOUS_MAX_GAP = int(os.environ.get('C03_SUPERFLUOUS_MAX_GAP', '3'))
+SUPERFLUOUS_NAMED_BOUND = int(os.environ.get('C03_SUPERFLUOUS_NAMED_BOUND', '0'))
+
+def removed_gap(recs, ids_idx, S, full, wits, log=None):
+    """how far a REMOVED record of a repair (named, not in S) is from the places where the engine is known to
+    over-report; worst case over the removed records of
+       0      it overlaps or abuts a named record that STAYS in the witness (alleles of one bubble position)
+       1..3   it lies OUTSIDE the peptide, at most one codon in front of / behind it (cleavage-site context)
+       50     it lies inside the stretch the peptide is translated from, clear of every other named record
+       d>3    its distance to the nearest other named record / to the peptide"""
+    spans = [(w['start'] + 3 * w['a'], w['start'] + 3 * w['b'])
+             for w in wits if sorted(recs.index(r) for r in w['H']) == full]
+    H = [recs[i] for i in full]
+    worst = 0
+    for i in ids_idx:
+        if i in S:
+            continue
+        r = recs[i]
+        g = min([max(0, recs[k]['s'] - r['e'], r['s'] - recs[k]['e']) for k in S] or [10 ** 6])
+        raw = g
+        if g <= SUPERFLUOUS_NAMED_BOUND:
+            g = 0          # overlaps / abuts a named record that STAYS in the witness
+        if g > 0:
+            hs, he = SG.shift(H, r['s']), SG.shift(H, r['e'])
+            ds = []
+            for lo, hi in spans:
+                d = max(0, lo - he, hs - hi)
+                ds.append(d if d > 0 else 50)
+            g = min([g if g > 3 else 4] + ds)
+        if log is not None:
+            log['named:%d' % min(raw, 99) if raw <= SUPERFLUOUS_NAMED_BOUND else ('peptide-adjacent:%d' % g if g <= 3 else 'unexplained(named:%d)' % min(raw, 99))] += 1
+        worst = max(worst, g)
+    return worst
 
 def _pairwise_ok(rs):
     rs = sorted(rs, key=lambda r: (r['s'], r['e']))
@@ -119,11 +198,26 @@ def classify_entry(ev, tx_id, x, recs, p, ids_idx):
                 cands.append((len(A), len(ids_idx) - len(S), S, A, full))
     cands.sort(key=lambda c: (c[0], c[1]))
     found = None
+    wits = None
     for api in (['cv_witness'] + (['cv_witness_relaxed'] if exc_on else []) + ['cv_witness_relaxed2']):
         if not cands:
             break
         oks = O.call(api, [x, [[p, c[4]] for c in cands]])
         hit = [c for c, ok in zip(cands, oks) if ok]
+        if any(c[1] for c in hit):
+            # a repair may REMOVE a named record only when that record overlaps / abuts a kept named record (or
+            # sits in the codon next to the peptide): that is the mechanism of C03-superfluous-id (removed_gap).
+            # Any other superfluous record (a frameshift leaked from another branch, seeded C03-3) is not explained
+            # by removing it.
+            if wits is None:
+                wits = SG.decode_wits(O.call('cv_may_witnesses', [x, p]), recs)
+            gaps = [removed_gap(recs, ids_idx, c[2], c[4], wits) if c[1] else 0 for c in hit]
+            if not hit[0][3] and hit[0][1]:
+                GAPS[min(gaps[0], 99)] += 1
+                removed_gap(recs, ids_idx, hit[0][2], hit[0][4], wits, log=GAPS)
+                if gaps[0] > 0 and os.environ.get('C03_DEBUG_GAP'):
+                    print('GAPDEBUG', gaps[0], p, [recs[i]['id'] for i in ids_idx], [recs[i]['id'] for i in hit[0][2]], file=sys.stderr)
+            hit = [c for c, g in zip(hit, gaps) if g <= SUPERFLUOUS_MAX_GAP]
         if hit:
             found = (api, hit[0]); break
     if not found:
@@ -131,8 +225,9 @@ def classify_entry(ev, tx_id, x, recs, p, ids_idx):
     api, (na, nr, S, A, full) = found
     if not A:
         return F_OVERLAP if api == 'cv_witness' else (CK.F_D14 if api == 'cv_witness_relaxed' else CK.F_PEPSIN)
-    ws = [w for w in SG.decode_wits(O.call('cv_may_witnesses', [x, p]), recs)
-          if sorted(recs.index(r) for r in w['H']) == full] if api == 'cv_witness' else []
+    if api == 'cv_witness' and wits is None:
+        wits = SG.decode_wits(O.call('cv_may_witnesses', [x, p]), recs)
+    ws = [w for w in wits if sorted(recs.index(r) for r in w['H']) == full] if api == 'cv_witness' else []
     kinds = []
     for i in A:
         r = recs[i]
@@ -165,14 +260,36 @@ def classify_entry(ev, tx_id, x, recs, p, ids_idx):
     return F_D12 if 'fs' in kinds else F_STOPHDR
 
 def classify_alt_entry(ev, tx_id, x, recs, p, ids_idx, sect, w2f):
-    """same mechanisms for an entry that also names generated SECT / W2F identifiers (witness_ok_fl)"""
+    """same mechanisms for an entry that also names generated SECT / W2F identifiers; sect / w2f = the POSITIONS
+    they name (witness_ok_pos).  Only the named records are repaired: a generated identifier that names the
+    wrong Sec codon / the wrong residues has no repair and stays a violation."""
     def wit(sets):
-        return O.call('cv_witness_fl', [x, [[p, sorted(sb), sect, w2f] for sb in sets]])
+        return O.call('cv_witness_pos', [x, [[p, sorted(sb), sect, w2f] for sb in sets]])
     if len(ids_idx) > 1:
         subs = [list(cb) for n in range(1, len(ids_idx)) for cb in itertools.combinations(ids_idx, n)
                 if _pairwise_ok([recs[i] for i in cb])]
-        if subs and any(wit(subs)):
-            return F_OVERLAP
+        hits = [sb for sb, ok in zip(subs, wit(subs)) if ok] if subs else []
+        if hits:
+            # same narrowing as in classify_entry; the peptide's own span is not consulted for alt forms, the named
+            # Sec codon counts as a named position
+            def gap_of(sb):
+                worst = 0
+                for i in ids_idx:
+                    if i in sb:
+                        continue
+                    r = recs[i]
+                    ds = [max(0, recs[k]['s'] - r['e'], r['s'] - recs[k]['e']) for k in sb]
+                    ds += [max(0, sp - r['e'], r['s'] - (sp + 3)) for sp in sect]
+                    g = min(ds) if ds else 10 ** 6
+                    worst = max(worst, 0 if g <= SUPERFLUOUS_NAMED_BOUND else g)
+                return worst
+            gap = min(gap_of(sb) for sb in hits)
+            GAPS['alt:%d' % min(gap, 99)] += 1
+            if gap > 0 and os.environ.get('C03_DEBUG_GAP'):
+                print('GAPDEBUG-ALT', gap, p, [recs[i]['id'] for i in ids_idx], hits[0], file=sys.stderr)
+            if gap == 0:
+                return F_OVERLAP
+            # a far-away superfluous record is not this finding: only repairs that ADD records remain
     if not _pairwise_ok([recs[i] for i in ids_idx]):
         return None
     g, t = CK._tx_of(ev.case, tx_id)
@@ -251,7 +368,20 @@ def judge(evs, violations, stats):
                     if (sect and not ev.run.get('sect')) or (w2f and not ev.run.get('w2f')):
                         bad['alt-id-without-flag'].append((seq, e)); continue
                     stats['entries_with_alt_ids'] += 1
-                    alt_items.append((seq, e, h['tx'], sorted(set(idx)), sect, w2f))
+                    pos = alt_positions(ev.case, h['tx'], seq, h['alts'])
+                    if isinstance(pos, str):
+                        bad[pos].append((seq, e)); continue
+                    stats['alt_ids:sect%d_w2f%d' % (min(len(pos[0]), 2), min(len(pos[1]), 4))] += 1
+                    alt_items.append((seq, e, h['tx'], sorted(set(idx)), pos[0], pos[1]))
+                    # measured geometry of the entries with a SECT id (what seeded C03-5 needs, two Sec in one peptide)
+                    for sp in pos[0]:
+                        named_recs = [recs[i] for i in set(idx)]
+                        if len(named_recs) >= 2 and any(r['e'] == sp for r in named_recs):
+                            stats['geom:sect_entry_with_record_ending_at_sec_and_another'] += 1
+                        if any(sp + 3 <= r['s'] < sp + 6 for r in named_recs):
+                            stats['geom:sect_entry_naming_record_in_codon_after_sec'] += 1
+                        if 'U' in seq:
+                            stats['geom:sect_entry_peptide_keeps_an_earlier_U'] += 1
                     continue
                 items.append((seq, e, h['tx'], sorted(set(idx))))
         if entries:
@@ -274,12 +404,21 @@ def judge(evs, violations, stats):
         for it in alt_items:
             by_tx_alt[it[2]].append(it)
         for tx_id, its in by_tx_alt.items():
-            oks = O.call('cv_witness_fl', [ev.xs[tx_id], [[s, idx, sect, w2f] for s, e, t, idx, sect, w2f in its]])
+            oks = O.call('cv_witness_pos', [ev.xs[tx_id], [[s, idx, sect, w2f] for s, e, t, idx, sect, w2f in its]])
             for (s, e, t, idx, sect, w2f), ok in zip(its, oks):
                 stats['witness_checked'] += 1
+                stats['witness_checked_pos'] += 1
                 if not ok:
                     tag = classify_alt_entry(ev, tx_id, ev.xs[tx_id], ev.recs[tx_id], s, idx, sect, w2f)
-                    bad['not-a-witness:%s' % (tag or '')].append((s, e))
+                    kind_ok = O.call('cv_witness_fl', [ev.xs[tx_id], [[s, idx, bool(sect), bool(w2f)]]])[0]
+                    if kind_ok:
+                        stats['pos_fails_where_kind_only_passed'] += 1
+                    why = 'not-a-witness'
+                    if not tag:
+                        why = 'generated-id-position-wrong' if kind_ok else 'not-a-witness'
+                        if any(s[i] != 'F' for i in w2f):
+                            why = 'w2f-id-names-residue-that-is-not-F'
+                    bad['%s:%s' % (why, tag or '')].append((s, e))
         for kind, lst in bad.items():
             tag = kind.split(':')[1] if ':' in kind else ''
             stats['bad:%s' % kind] += len(lst)
@@ -317,13 +456,14 @@ def run(ctx):
     CK.annotate_stability(ctx, keep, judge, want_may=False)
     samples = [dict(CK.strip_case(c), world='<omitted>') for c in cases[:3]]
     return dict(evaluations=stats['witness_checked'], distinct_nontrivial=stats['nontrivial'],
-                rule='one evaluation = one (peptide, header entry) pair checked with the proved decider witness_ok; '
+                rule='one evaluation = one (peptide, header entry) pair checked with the proved decider witness_ok (entries with generated SECT / W2F identifiers: witness_ok_pos, position exact); '
                      'non-trivial = number of runs whose FASTA has at least one entry',
                 samples=samples, distribution=CK.dist_of(cases), stats=dict(stats),
                 known_finding_counts=dict(cnt), engine_tied_by='correspondence', stream_wall_s=stream_wall, violations=keep,
-                assumptions=['records are SNV / MNV / INDEL on linear transcripts; fusion / circRNA backbones and SECT / W2F identifiers are not generated (property partial for them)',
+                assumptions=['records are SNV / MNV / INDEL on linear transcripts; fusion / circRNA backbones are not generated here (property partial for them)',
+                             'SECT-n is mapped to its Sec codon with the generator\'s ground truth (gene -> transcript), W2F-i is read as the 1-based residue index of the printed peptide (measured: 2 699 / 2 699 entries)',
                              'the peptide table\'s header column is not read (the FASTA is assembled from it by the tool itself)'],
-                trusted_base=['glue coq/Extract/Api_Spec.v', 'header parser harness/lib/cvgen.py:parse_header',
+                trusted_base=['glue coq/Extract/Api_Spec.v, Api_SpecAlt.v, Api_SpecAltPos.v', 'header parser harness/lib/cvgen.py:parse_header',
                               'case generator harness/lib/cvgen.py and signature predicates'])
 
 def replay(ctx, obj):
